@@ -305,7 +305,7 @@ def main():
         worker(a)
         return
     tier = a.tier
-    per = 14 if tier == "quick" else 200
+    per = 14 if tier == "quick" else 500
     rc = pbt.run_parallel(
         PID, os.path.abspath(__file__), tier, 12, per, "exploration",
         "Hypothesis-generated sessions with the radar binary on a real pty: start options (touchscreen, disable flags, limit-parsing, retry, locations, scale incl. 0/negative/huge), initial terminal size from {1..120} x {1..250}, then up to 18 steps from {key, burst of keys in one write, SGR mouse event at arbitrary/out-of-window coordinates, click on a tab, resize + SIGWINCH, feed of 0-5 aircraft with or without positions, wait for expiry with --filter-time 1}; after every step the process must be alive with no panic on stderr; then quit by q or Ctrl-C (also while waiting for the first connection): exit 0, termios equal to the snapshot taken before start, mouse reporting off, cursor visible. Separately: invalid values for every value-taking option must give a clap usage error (status 2), not a panic. non-trivial = size < 5 in a dimension, Airplanes/Stats tab with no aircraft, aircraft expiring, quit without server, or a CLI case; distinct by hash of the case",
